@@ -44,7 +44,7 @@ func lazyShortcut(name string, ops []interface{}, b bool) bool {
 }
 
 func c18(r *rep.Run) {
-	r.SetBudget(150e9)
+	r.SetBudget(300e9)
 	if r.Thorough() {
 		r.SetBudget(1800e9)
 	}
